@@ -596,6 +596,17 @@ def class_only_rule(ctx, prefix):
                         has_px = any(gd.option_state([at], m_prefix) == "some" for at in atoms)
                         if has_in and has_px and len(atoms) == 2:
                             neg_conj = True
+                    if kind == "pat" and pol is False:
+                        # `if let (true, Some(p)) = (in_class, prefix) {..} else { <here> }`: the same two tests as one tuple pattern
+                        atoms = None
+                        for nd in sir.walk(f.body):
+                            if nd.get("k") == "if" and nd["cond"].get("k") == "let" and nd["cond"]["e"] is subj[0]:
+                                atoms = gd._pat_guards(nd["cond"]["e"], nd["cond"]["pat"], True)
+                        if atoms and len(atoms) == 2:
+                            has_in = any(k_ == "cond" and a_.get("k") == "path" and sir.expr_str(a_) == "in_class" and p_ for k_, a_, p_ in atoms)
+                            has_px = any(gd.option_state([at], m_prefix) == "some" for at in atoms)
+                            if has_in and has_px:
+                                neg_conj = True
                 if not neg_conj:
                     probs.append("the identifier is copied unchanged on a path that does not test in_class / the prefix")
         else:
@@ -976,16 +987,35 @@ def host_rules(ctx, prefix):
             dd = "detection match not found"
             if det is not None:
                 probs = []
+                import guards as gdm
+                GG = gdm.guards_of(g.body)
+
+                def is_host_lit(x):
+                    x = sir.strip_ref(x)
+                    return x.get("k") == "lit" and x.get("t") in ("str", "bytestr") and x.get("v") == "host"
+
+                def host_equality(kind, subj, pol):
+                    """the guard says: the name equals `host`"""
+                    if kind != "cond":
+                        return False
+                    c_ = subj
+                    while c_.get("k") == "paren":
+                        c_ = c_["e"]
+                    if c_.get("k") == "binary" and c_.get("op") in ("==", "!=") and (is_host_lit(c_["l"]) or is_host_lit(c_["r"])):
+                        return (c_["op"] == "==") == pol
+                    if c_.get("k") == "mcall" and c_["m"] in ("eq", "eq_ignore_ascii_case") and c_["args"] and is_host_lit(c_["args"][0]):
+                        return pol
+                    return False
                 for a in det["arms"][:2]:
-                    gd = a.get("guard")
-                    gs = sir.expr_str(gd).replace(" ", "") if gd is not None else ""
-                    def is_host_lit(x):
-                        x = sir.strip_ref(x)
-                        return x.get("k") == "lit" and x.get("t") in ("str", "bytestr") and x.get("v") == "host"
-                    exact = gd is not None and ((gd.get("k") == "binary" and gd.get("op") == "==" and (is_host_lit(gd["l"]) or is_host_lit(gd["r"])))
-                                                or (gd.get("k") == "mcall" and gd["m"] in ("eq", "eq_ignore_ascii_case") and gd["args"] and is_host_lit(gd["args"][0])))
+                    # the value the arm yields (its tail) is reached only when the name equals `host`: as the arm's guard, or
+                    # because every other case has returned before
+                    tail = a["body"]
+                    while tail.get("k") == "block" and tail["stmts"]:
+                        last_ = tail["stmts"][-1]
+                        tail = last_["e"] if last_.get("k") == "expr" else last_
+                    exact = any(host_equality(*g_) for g_ in GG.get(id(tail), []))
                     if not exact:
-                        probs.append("arm `%s` is guarded by `%s`, not by equality with `host`" % (sir.pat_str(a["pat"]), gs))
+                        probs.append("arm `%s` yields its value under %s, not under equality with `host`" % (sir.pat_str(a["pat"]), [sir.expr_str(g_[1])[:40] if g_[0] == "cond" else g_[1][1][:40] for g_ in GG.get(id(tail), [])][-2:]))
                 last = det["arms"][2]
                 if not (last["pat"].get("k") == "p_wild" and last["body"].get("k") == "return" and last["body"].get("e") is not None and sir.expr_str(last["body"]["e"]).startswith("Err(")):
                     probs.append("anything else must fail the look-ahead (`_ => return Err`)")
